@@ -5,7 +5,7 @@
 
     The reader is stricter than the relation in a few corners; they are collected in the decidable
     scope [reader_scopeb] (documented below, each clause necessary) and in one condition on the
-    tokens (the empty string literal, which the relation admits and the reader's [quoted] does not). *)
+    tokens (the empty string literal, which the relation allows and the reader's [quoted] does not). *)
 From Coq Require Import List NArith ZArith Bool String Ascii Lia Arith DecimalString DecimalN.
 From V Require Import Base.Util Base.Strings Base.Result Model.Registry Model.Settings Model.Subst
   Model.TypePath Model.Derives Model.Generate Model.Emit Model.Equal Model.Shape Model.RngWords
@@ -204,7 +204,7 @@ Qed.
 Definition model_paths (r : registry) (s : settings) : list (obs tokens) :=
   map (fun i => obs_of (model_path r s i)) (ids_of r).
 
-(** the empty string literal: admitted by the relation ([all_chars alnum ""]), refused by the
+(** the empty string literal: allowed by the relation ([all_chars alnum ""]), refused by the
     reader ([quoted] wants a character between the quotes); the model never prints it *)
 Definition empty_str_lit : string := quote_with """" "".
 
@@ -803,6 +803,12 @@ Section SlotsC.
     - cbn [read_slots_c] in H. exact H.
     - change (RunC14.expect "," ("," :: r2)) with (Some r2). cbn [obind]. apply IH. exact H.
   Qed.
+
+  Lemma read_slot_named n f ts : read_slot C (SField (Some n) f) (n :: ":" :: ts) = read_val f ts.
+  Proof. unfold read_slot, RunC14.expects, RunC14.expect. rewrite String.eqb_refl. reflexivity. Qed.
+
+  Lemma read_slot_unnamed f ts : read_slot C (SField None f) ts = read_val f ts.
+  Proof. reflexivity. Qed.
 End SlotsC.
 
 (** * H. primitive literals *)
@@ -912,3 +918,902 @@ Proof.
       rewrite <- !app_assoc. cbn [app RunC14.expect]. change (String.eqb "[" "[") with true. cbv iota. cbn [obind].
       rewrite <- Hl. fold u8_rd. rewrite (bytes_read b _ Hb). reflexivity.
 Qed.
+
+(** * I. generic list facts *)
+Lemma find_key_nodup {A} (key : A -> string) : forall (l : list A) x,
+  NoDup (map key l) -> In x l -> find (fun y => String.eqb (key y) (key x)) l = Some x.
+Proof.
+  induction l as [|a l IH]; intros x Hnd Hin; [destruct Hin|].
+  cbn [map] in Hnd. inversion Hnd as [|k ks Hnot Hnd']; subst.
+  cbn [find]. destruct (String.eqb (key a) (key x)) eqn:E.
+  - apply String.eqb_eq in E. destruct Hin as [->|Hin]; [reflexivity|].
+    exfalso. apply Hnot. rewrite E. apply in_map. exact Hin.
+  - destruct Hin as [->|Hin]; [rewrite String.eqb_refl in E; discriminate|]. apply IH; assumption.
+Qed.
+
+Lemma find_map_app {A B} (p : B -> bool) (g : A -> B) : forall (l : list A) tail x,
+  find (fun y => p (g y)) l = Some x -> find p (map g l ++ tail) = Some (g x).
+Proof.
+  induction l as [|a l IH]; intros tail x H; [discriminate H|].
+  cbn [find map app] in *. destruct (p (g a)); [inversion H; reflexivity|apply IH; exact H].
+Qed.
+
+Lemma nodup_strb_sound : forall l, nodup_strb l = true -> NoDup l.
+Proof.
+  induction l as [|x l IH]; intros H; [constructor|].
+  cbn [nodup_strb] in H. apply andb_prop in H as [H1 H2]. apply negb_true_iff in H1.
+  constructor; [|apply IH; exact H2].
+  intros Hin. assert (K : existsb (String.eqb x) l = true).
+  { apply existsb_exists. exists x. split; [exact Hin|apply String.eqb_refl]. }
+  congruence.
+Qed.
+
+Lemma nodup_fst_functional {A B} (l : list (A * B)) a b b' :
+  NoDup (map fst l) -> In (a, b) l -> In (a, b') l -> b = b'.
+Proof.
+  induction l as [|[a0 b0] l IH]; intros Hnd H1 H2; [destruct H1|].
+  cbn [map fst] in Hnd. inversion Hnd as [|k ks Hnot Hnd']; subst.
+  destruct H1 as [E1|H1], H2 as [E2|H2].
+  - congruence.
+  - inversion E1; subst. exfalso. apply Hnot. change a with (fst (a, b')). apply in_map. exact H2.
+  - inversion E2; subst. exfalso. apply Hnot. change a with (fst (a, b)). apply in_map. exact H1.
+  - apply IH; assumption.
+Qed.
+
+Lemma suffix_len {A} (ts e rest : list A) : ts = e ++ rest -> List.length ts = (List.length e + List.length rest)%nat.
+Proof. intros ->. apply app_length. Qed.
+
+Lemma notin_suffix {A} (x : A) (ts e rest : list A) : ts = e ++ rest -> ~ In x ts -> ~ In x rest.
+Proof. intros -> H Hin. apply H. apply in_or_app. right. exact Hin. Qed.
+
+Lemma all_named_names fs : all_named fs = true -> map Some (map field_label fs) = map f_name fs.
+Proof.
+  unfold all_named. induction fs as [|f fs IH]; intros H; [reflexivity|].
+  cbn [forallb] in H. apply andb_prop in H as [Hf H]. cbn [map]. rewrite (IH H). f_equal.
+  unfold field_label. destruct (f_name f); [reflexivity|discriminate Hf].
+Qed.
+
+(** closed readings of the marker slots *)
+Lemma unit_marker_read C rest :
+  RunC14.read_shape C (ShTuple [SMarker false]) ("(" :: marker_path ++ ")" :: rest) = Some rest.
+Proof. reflexivity. Qed.
+
+Lemma named_marker_read C rest :
+  read_slots C [SMarker true] ("__ignore" :: ":" :: marker_path ++ "}" :: rest) = Some ("}" :: rest).
+Proof. reflexivity. Qed.
+
+Lemma unnamed_marker_read C rest :
+  read_slots C [SMarker false] (marker_path ++ ")" :: rest) = Some (")" :: rest).
+Proof. reflexivity. Qed.
+
+(** without a generated item: the marker is optional *)
+Lemma registry_shape_read C fs L mk ts rest :
+  layout_of_fields fs = Some L ->
+  RunC14.read_shape C (item_shape L mk fs) ts = Some rest ->
+  (mk = true -> L <> LUnit -> RunC14.read_shape C (item_shape L false fs) ts = None) ->
+  (L = LUnit -> mk = false -> Unparse.hd_is "(" ts = false) ->
+  read_registry_shape C fs ts = Some rest.
+Proof.
+  intros HL Hr Hfirst Hunit. unfold read_registry_shape. rewrite (shape_of_registry_layout fs L HL).
+  destruct L as [|ns|k]; destruct mk; cbn [item_shape] in *.
+  - cbn [RunC14.read_shape] in Hr.
+    destruct (RunC14.expect "(" ts) as [r1|] eqn:E1; [|discriminate Hr]. apply expect_inv in E1. subst ts.
+    cbv iota. exact Hr.
+  - rewrite (match_lparen_unit None (RunC14.read_shape C ShUnit ts) ts (Hunit eq_refl eq_refl)).
+    rewrite Hr. reflexivity.
+  - rewrite app_nil_r in *. rewrite (Hfirst eq_refl ltac:(discriminate)). exact Hr.
+  - rewrite Hr. reflexivity.
+  - rewrite app_nil_r in *. rewrite (Hfirst eq_refl ltac:(discriminate)). exact Hr.
+  - rewrite Hr. reflexivity.
+Qed.
+
+(** * J. the tie *)
+Section Tie.
+  Variables (r : registry) (s : settings) (teq : N -> N -> result bool) (m : items).
+  Hypothesis Hgen : generate r s teq = Ok m.
+  Hypothesis Hsk : skeleton_consistent r s.
+  Hypothesis Hscope : reader_scopeb r s m = true.
+
+  Let root := s_root s.
+  Let pm : option pmod := Some (pmod_of_items s m).
+  Let paths := model_paths r s.
+  Let len := List.length r.
+  Notation CF := (conf r root pm paths).
+
+  Lemma scope_root : ident_lexb root = true.
+  Proof. unfold reader_scopeb in Hscope. apply andb_prop in Hscope as [H _]. apply andb_prop in H as [H _]. exact H. Qed.
+
+  Lemma scope_entry id t : lookup r id = Some t -> entry_scopeb r s id t = true.
+  Proof.
+    intros L. pose proof (lookup_In r s teq m Hgen id t L) as Hin.
+    unfold reader_scopeb in Hscope. apply andb_prop in Hscope as [H _]. apply andb_prop in H as [_ H].
+    rewrite forallb_forall in H. exact (H (id, t) Hin).
+  Qed.
+
+  Lemma scope_item p id0 ir : items_get m p = Some (id0, ir) -> item_scopeb s ir = true.
+  Proof.
+    intros G. apply items_get_In_some in G.
+    unfold reader_scopeb in Hscope. apply andb_prop in Hscope as [_ H].
+    rewrite forallb_forall in H. exact (H (p, (id0, ir)) G).
+  Qed.
+
+  Lemma lookup_items_gen p id ir :
+    items_get m p = Some (id, ir) -> lookup_item (pmod_of_items s m) p = Some (item_of_ir s ir).
+  Proof.
+    intros H. apply items_get_In_some in H. unfold pmod_of_items.
+    destruct (generate_unique_names _ _ _ _ Hgen) as [Hsorted Hnd].
+    apply (lookup_pmod s (S (max_depth m)) (s_root s) _ p (p, (p, ir))).
+    - pose proof (max_depth_ge m _ H) as Hl. cbn [fst] in Hl. lia.
+    - rewrite map_map. cbn [fst]. exact Hnd.
+    - intros e He. apply in_map_iff in He as ([p' [id' ir']] & <- & Hin). cbn [fst snd].
+      assert (Hget : items_get m p' = Some (id', ir')) by (apply (items_get_In_iff m Hsorted); exact Hin).
+      destruct (generate_items_come_from_entries _ _ _ _ _ _ _ Hgen Hget) as (t & flat & _ & Hpath & _ & _ & Hc).
+      destruct (create_type_ir_name_params _ _ _ _ _ Hc) as (Hne & Hlast & _). rewrite Hpath in *.
+      split; [exact Hne|exact Hlast].
+    - apply in_map_iff. exists (p, (id, ir)). split; [reflexivity|exact H].
+    - reflexivity.
+  Qed.
+
+  (** the literal path of an item-eligible entry points at its item in the parsed module *)
+  Lemma item_of_literal id t p id0 ir :
+    lookup r id = Some t -> item_eligible s t = true -> path_ident (t_path t) <> Some "Cow" ->
+    path_omit_generics r s id = Ok p -> items_get m (t_path t) = Some (id0, ir) ->
+    item_of_path root pm p = Some (Some (item_of_ir s ir)) /\
+    (exists x q, p = x :: q /\ x = root) /\ (exists a b l, t_path t = a :: b :: l).
+  Proof.
+    intros L He Hcow Hp G.
+    destruct (eligible_literal_path_lex r s id t p (lookup_resolve r id t L) He Hcow scope_root Hp)
+      as (-> & Hlex & (a & b & l & Epath)).
+    split; [|split; [exists root, (flat_map (fun x => [":"; ":"; x]) (t_path t)); split; reflexivity|eauto]].
+    unfold item_of_path. fold root.
+    rewrite (rel_segments_rel_path (t_path t) root (ident_not_punct _ scope_root) Hlex).
+    rewrite String.eqb_refl. unfold pm. rewrite Epath. rewrite <- Epath.
+    rewrite (lookup_items_gen _ _ _ G). reflexivity.
+  Qed.
+
+  (** what the relation reads from the IR is what the reader reads from the parsed item *)
+  Lemma struct_item_facts id t fs id0 ir L mk :
+    lookup r id = Some t -> t_def t = TDComposite fs -> item_eligible s t = true ->
+    items_get m (t_path t) = Some (id0, ir) -> sig_of_ir ir = ISStruct L mk ->
+    layout_of_fields fs = Some L /\ pi_is_enum (item_of_ir s ir) = false /\
+    shape_of_item (pi_body (item_of_ir s ir)) fs = Some (item_shape L mk fs).
+  Proof.
+    intros Lk D He G Hsig.
+    destruct (item_of_entry r s teq m Hgen Hsk id t (lookup_In r s teq m Hgen id t Lk) He)
+      as (id0' & ir0 & irX & G' & HirX & Hsg).
+    rewrite G in G'. inversion G'; subst id0' ir0. clear G'.
+    pose proof (create_type_ir_sig _ _ _ _ _ HirX) as Hes. unfold entry_sig_ok in Hes. rewrite D in Hes.
+    destruct Hes as (L' & HL' & Hsx). rewrite <- Hsg, Hsig in Hsx. injection Hsx as EL Emk. subst L'.
+    split; [exact HL'|].
+    pose proof (scope_item _ _ _ G) as Hsc. unfold item_scopeb in Hsc.
+    unfold sig_of_ir in Hsig. unfold item_of_ir.
+    destruct (ti_kind ir) as [c|nm docs vsi]; [|discriminate Hsig].
+    injection Hsig as HLc Hmk. cbn [pi_is_enum pi_body]. split; [reflexivity|].
+    subst L mk. exact (shape_of_struct_body s (ci_kind c) (ti_unused ir) (ti_codec ir) fs HL' Hsc).
+  Qed.
+
+  Lemma variant_item_facts id t vs v id0 ir sigs L :
+    lookup r id = Some t -> t_def t = TDVariant vs -> In v vs -> item_eligible s t = true ->
+    items_get m (t_path t) = Some (id0, ir) -> sig_of_ir ir = ISEnum sigs -> In (v_name v, L) sigs ->
+    layout_of_fields (v_fields v) = Some L /\ pi_is_enum (item_of_ir s ir) = true /\
+    exists pv, find (fun pv => String.eqb (pv_name pv) (v_name v)) (pi_variants (item_of_ir s ir)) = Some pv /\
+               shape_of_item (pv_body pv) (v_fields v) = Some (item_shape L false (v_fields v)).
+  Proof.
+    intros Lk D Hv He G Hsig Hin.
+    destruct (item_of_entry r s teq m Hgen Hsk id t (lookup_In r s teq m Hgen id t Lk) He)
+      as (id0' & ir0 & irX & G' & HirX & Hsg).
+    rewrite G in G'. inversion G'; subst id0' ir0. clear G'.
+    pose proof (create_type_ir_sig _ _ _ _ _ HirX) as Hes. unfold entry_sig_ok in Hes. rewrite D in Hes.
+    destruct Hes as (sigs' & Hsx & HF). rewrite <- Hsg, Hsig in Hsx. inversion Hsx; subst sigs'. clear Hsx.
+    pose proof (scope_entry id t Lk) as Hse. unfold entry_scopeb in Hse. rewrite D in Hse.
+    apply andb_prop in Hse as [Hse _]. apply andb_prop in Hse as [Hse _]. apply andb_prop in Hse as [_ Hnd].
+    apply nodup_strb_sound in Hnd.
+    assert (Hnames : map fst sigs = map v_name vs).
+    { clear -HF. induction HF as [|v0 x vs0 sg0 [Hx _] _ IH]; [reflexivity|]. cbn [map]. rewrite Hx, IH. reflexivity. }
+    assert (Hnds : NoDup (map fst sigs)) by (rewrite Hnames; exact Hnd).
+    destruct (Forall2_In_l _ _ _ _ HF Hv) as (x & Hx & Hxn & Hxl).
+    assert (HLx : snd x = L).
+    { destruct x as [xn xl]. cbn [fst snd] in *. subst xn. exact (nodup_fst_functional sigs _ _ _ Hnds Hx Hin). }
+    rewrite HLx in Hxl. split; [exact Hxl|].
+    pose proof (scope_item _ _ _ G) as Hsc. unfold item_scopeb in Hsc.
+    unfold sig_of_ir in Hsig. unfold item_of_ir.
+    destruct (ti_kind ir) as [c|nm docs vsi]; [discriminate Hsig|].
+    inversion Hsig as [Hsigs]. cbn [pi_is_enum pi_variants]. split; [reflexivity|].
+    rewrite <- Hsigs in Hin. apply in_map_iff in Hin as (ic & Hic & Hicin). inversion Hic as [[Hn HLc]].
+    exists (variant_of s (ti_codec ir) ic). split.
+    - rewrite <- ?Hn.
+      apply (find_map_app (fun pv => String.eqb (pv_name pv) (ci_name (snd ic))) (variant_of s (ti_codec ir))).
+      apply (find_key_nodup (fun y : N * composite_ir => ci_name (snd y)) vsi ic); [|exact Hicin].
+      rewrite <- Hsigs in Hnds. rewrite map_map in Hnds. exact Hnds.
+    - cbn [variant_of pv_body]. rewrite forallb_forall in Hsc. specialize (Hsc ic Hicin).
+      assert (Hxl' : layout_of_fields (v_fields v) = Some (layout_of_ckind (ci_kind (snd ic)))) by congruence.
+      rewrite (shape_of_variant_body s _ (ti_codec ir) _ Hxl' Hsc). congruence.
+  Qed.
+
+  (** ** fuel: a [Cow] consumes fuel without consuming a token *)
+  Definition cw (id : N) : nat :=
+    match strip_compact r (S len) id with
+    | Some (_, t) => if is_cow_ty t then 1%nat else 0%nat
+    | None => 0%nat
+    end.
+
+  Lemma cw_le1 id : (cw id <= 1)%nat.
+  Proof. unfold cw. destruct (strip_compact r (S len) id) as [[i t]|]; [destruct (is_cow_ty t)|]; lia. Qed.
+
+  Lemma cw_self id t :
+    lookup r id = Some t -> (forall e, t_def t <> TDCompact e) ->
+    cw id = if is_cow_ty t then 1%nat else 0%nat.
+  Proof. intros L D. unfold cw, len. rewrite (strip_compact_self r id t L D). reflexivity. Qed.
+
+  Lemma cw_hop id t e : lookup r id = Some t -> t_def t = TDCompact e -> cw id = cw e.
+  Proof.
+    intros L D. unfold cw, len. destruct (strip_compact r (S (List.length r)) e) as [y|] eqn:E.
+    - rewrite (strip_compact_hop r id t e L D y E). reflexivity.
+    - rewrite strip_S, L, D. destruct (strip_compact r (List.length r) e) as [y|] eqn:E'; [|reflexivity].
+      apply strip_any_fuel in E'. congruence.
+  Qed.
+
+  Lemma conf_hop id t e fuel ts rest :
+    lookup r id = Some t -> t_def t = TDCompact e -> CF fuel e ts = Some rest -> CF fuel id ts = Some rest.
+  Proof.
+    intros L D H. destruct fuel as [|f]; [discriminate H|]. cbn [conf] in *.
+    destruct (strip_compact r (S (List.length r)) e) as [y|] eqn:E; [|discriminate H].
+    rewrite (strip_compact_hop r id t e L D y E). exact H.
+  Qed.
+
+  Definition P (id : N) (ts rest : toks) : Prop :=
+    (exists e, ts = e ++ rest) /\
+    (Unparse.hd_is "(" rest = false -> ~ In empty_str_lit ts ->
+     Unparse.hd_is "]" ts = false /\ (List.length rest < List.length ts + cw id)%nat /\
+     forall fuel, (List.length ts + cw id <= fuel + List.length rest)%nat -> CF fuel id ts = Some rest).
+
+  Section Children.
+    Variable f : nat.
+
+    Lemma child_read i ts fin :
+      P i ts fin -> Unparse.hd_is "(" fin = false -> ~ In empty_str_lit ts ->
+      (List.length ts + 1 <= f + List.length fin)%nat ->
+      CF f i ts = Some fin /\ Unparse.hd_is "]" ts = false.
+    Proof.
+      intros [_ Hr] Hh Hn Hl. destruct (Hr Hh Hn) as (H1 & _ & K). split; [|exact H1].
+      apply K. pose proof (cw_le1 i). lia.
+    Qed.
+
+    Lemma value_read fld ts fin :
+      conf_value P fld ts fin ->
+      (exists e, ts = e ++ fin) /\
+      (Unparse.hd_is "(" fin = false -> ~ In empty_str_lit ts ->
+       (List.length ts + 1 <= f + List.length fin)%nat -> read_val (CF f) fld ts = Some fin).
+    Proof.
+      intros [ts0 fin0 Hc HP|ts0 fin0 Hc HP].
+      - split; [exact (proj1 HP)|]. intros Hh Hn Hl. unfold read_val.
+        change (field_explicit_compact fld) with (explicit_compact fld). rewrite Hc.
+        exact (proj1 (child_read _ _ _ HP Hh Hn Hl)).
+      - destruct (proj1 HP) as (e & He). split.
+        + exists ("Compact" :: "(" :: e ++ [")"]). rewrite He. cbn [app]. rewrite <- app_assoc. reflexivity.
+        + intros Hh Hn Hl. unfold read_val.
+          change (field_explicit_compact fld) with (explicit_compact fld). rewrite Hc.
+          change (RunC14.expects ["Compact"; "("] ("Compact" :: "(" :: ts0)) with (Some ts0). cbn [obind].
+          assert (Hn0 : ~ In empty_str_lit ts0) by (intros Hi; apply Hn; right; right; exact Hi).
+          cbn [List.length] in Hl.
+          destruct (child_read _ _ _ HP eq_refl Hn0 ltac:(cbn [List.length]; lia)) as [K _].
+          rewrite K. reflexivity.
+    Qed.
+
+    Lemma named_read : forall ns fs ts fin,
+      conf_named P ns fs ts fin -> map Some ns = map f_name fs ->
+      (exists e, ts = e ++ fin) /\
+      (Unparse.hd_is "(" fin = false -> ~ In empty_str_lit ts ->
+       (List.length ts <= f + List.length fin)%nat -> read_slots_c (CF f) (map SF fs) ts = Some fin).
+    Proof.
+      induction 1 as [fin|n ns fld fs ts mid fin Hv Hnm IH]; intros Hnames.
+      - split; [exists []; reflexivity|]. intros _ _ _. reflexivity.
+      - cbn [map] in Hnames. injection Hnames as Hn0 Hnames.
+        destruct (value_read _ _ _ Hv) as [(e1 & He1) Kv]. destruct (IH Hnames) as [(e2 & He2) Kn].
+        split.
+        + exists (n :: ":" :: e1 ++ "," :: e2). rewrite He1, He2. cbn [app]. rewrite <- app_assoc. reflexivity.
+        + intros Hh Hn Hl.
+          assert (Hnts : ~ In empty_str_lit ts) by (intros Hi; apply Hn; right; right; exact Hi).
+          assert (Hnmid : ~ In empty_str_lit mid).
+          { apply (notin_suffix _ _ _ _ He1) in Hnts. intros Hi. apply Hnts. right. exact Hi. }
+          pose proof (suffix_len _ _ _ He1) as L1. pose proof (suffix_len _ _ _ He2) as L2.
+          cbn [List.length] in L1, Hl.
+          cbn [map read_slots_c]. unfold SF at 1. rewrite <- Hn0.
+          rewrite read_slot_named.
+          rewrite (Kv eq_refl Hnts ltac:(cbn [List.length]; lia)). cbn [obind].
+          change (RunC14.expect "," ("," :: mid)) with (Some mid). cbn [obind].
+          apply (Kn Hh Hnmid). lia.
+    Qed.
+
+    Lemma unnamed_read : forall k fs ts fin,
+      conf_unnamed P k fs ts fin -> all_unnamed fs = true ->
+      (exists e, ts = e ++ fin) /\
+      (Unparse.hd_is "(" fin = false -> ~ In empty_str_lit ts ->
+       (List.length ts <= f + List.length fin)%nat -> read_slots_c (CF f) (map SF fs) ts = Some fin).
+    Proof.
+      induction 1 as [fin|k fld fs ts mid fin Hv Hnm IH]; intros Hun.
+      - split; [exists []; reflexivity|]. intros _ _ _. reflexivity.
+      - cbn [all_unnamed forallb] in Hun. apply andb_prop in Hun as [Hf Hun].
+        destruct (value_read _ _ _ Hv) as [(e1 & He1) Kv]. destruct (IH Hun) as [(e2 & He2) Kn].
+        split.
+        + exists (e1 ++ "," :: e2). rewrite He1, He2. rewrite <- app_assoc. reflexivity.
+        + intros Hh Hnts Hl.
+          assert (Hnmid : ~ In empty_str_lit mid).
+          { apply (notin_suffix _ _ _ _ He1) in Hnts. intros Hi. apply Hnts. right. exact Hi. }
+          pose proof (suffix_len _ _ _ He1) as L1. pose proof (suffix_len _ _ _ He2) as L2.
+          cbn [List.length] in L1.
+          cbn [map read_slots_c]. unfold SF at 1.
+          destruct (f_name fld) as [nm|]; [discriminate Hf|].
+          rewrite read_slot_unnamed.
+          rewrite (Kv eq_refl Hnts ltac:(cbn [List.length]; lia)). cbn [obind].
+          change (RunC14.expect "," ("," :: mid)) with (Some mid). cbn [obind].
+          apply (Kn Hh Hnmid). lia.
+    Qed.
+  End Children.
+
+  Section Children2.
+    Variable f : nat.
+
+    (** struct / variant bodies: the item form (marker exactly when [mk]) and the foreign form *)
+    Lemma shape_read L mk fs ts rest :
+      conf_shape P L mk fs ts rest -> layout_of_fields fs = Some L ->
+      (exists e, ts = e ++ rest) /\
+      (Unparse.hd_is "(" rest = false -> ~ In empty_str_lit ts ->
+       (List.length ts <= f + List.length rest)%nat ->
+       RunC14.read_shape (CF f) (item_shape L mk fs) ts = Some rest /\
+       read_registry_shape (CF f) fs ts = Some rest).
+    Proof.
+      intros Hsh HL. destruct Hsh as [rest|rest|ns mk fs ts rest Hn|k mk fs ts rest Hu].
+      - split; [exists []; reflexivity|]. intros Hh _ _.
+        assert (K : RunC14.read_shape (CF f) (item_shape LUnit false []) rest = Some rest) by reflexivity.
+        split; [exact K|].
+        apply (registry_shape_read (CF f) [] LUnit false rest rest HL K); [discriminate|intros _ _; exact Hh].
+      - split; [exists ("(" :: marker_path ++ [")"]); cbn [app]; rewrite <- app_assoc; reflexivity|]. intros _ _ _.
+        assert (K : RunC14.read_shape (CF f) (item_shape LUnit true []) ("(" :: marker_path ++ ")" :: rest) = Some rest)
+          by apply unit_marker_read.
+        split; [exact K|].
+        apply (registry_shape_read (CF f) [] LUnit true _ rest HL K); [intros _ Hc; congruence|discriminate].
+      - destruct (layout_named _ _ HL) as [Han Hlab].
+        assert (Hnames : map Some ns = map f_name fs) by (rewrite <- Hlab; apply all_named_names; exact Han).
+        destruct (named_read f _ _ _ _ Hn Hnames) as [(e & He) K].
+        split.
+        { exists ("{" :: e ++ named_marker mk ++ ["}"]). rewrite He. cbn [app]. rewrite <- !app_assoc. reflexivity. }
+        intros Hh Hnin Hl.
+        assert (Hnts : ~ In empty_str_lit ts) by (intros Hi; apply Hnin; right; exact Hi).
+        pose proof (suffix_len _ _ _ He) as L1. rewrite app_length in L1. cbn [List.length] in L1, Hl.
+        assert (Kc : read_slots_c (CF f) (map SF fs) ts = Some (named_marker mk ++ "}" :: rest)).
+        { apply K; [destruct mk; reflexivity|exact Hnts|rewrite app_length; cbn [List.length]; lia]. }
+        destruct mk; cbn [named_marker app] in Kc.
+        + assert (K1 : RunC14.read_shape (CF f) (item_shape (LNamed ns) true fs) ("{" :: ts) = Some rest).
+          { cbn [item_shape RunC14.read_shape]. change (RunC14.expect "{" ("{" :: ts)) with (Some ts). cbn [obind].
+            rewrite read_slots_app by discriminate. rewrite Kc. cbn [obind].
+            change ("__ignore" :: ":" :: marker_path ++ "}" :: rest)
+              with ("__ignore" :: ":" :: marker_path ++ "}" :: rest).
+            rewrite (named_marker_read (CF f) rest). reflexivity. }
+          split; [exact K1|].
+          apply (registry_shape_read (CF f) fs (LNamed ns) true _ rest HL K1); [|discriminate].
+          intros _ _. cbn [item_shape RunC14.read_shape]. change (RunC14.expect "{" ("{" :: ts)) with (Some ts).
+          cbn [obind]. rewrite app_nil_r. rewrite (read_slots_of_c _ _ _ _ Kc). reflexivity.
+        + assert (K1 : RunC14.read_shape (CF f) (item_shape (LNamed ns) false fs) ("{" :: ts) = Some rest).
+          { cbn [item_shape RunC14.read_shape]. change (RunC14.expect "{" ("{" :: ts)) with (Some ts). cbn [obind].
+            rewrite app_nil_r. rewrite (read_slots_of_c _ _ _ _ Kc). reflexivity. }
+          split; [exact K1|].
+          apply (registry_shape_read (CF f) fs (LNamed ns) false _ rest HL K1); discriminate.
+      - destruct (layout_unnamed _ _ HL) as [Hau _].
+        destruct (unnamed_read f _ _ _ _ Hu Hau) as [(e & He) K].
+        split.
+        { exists ("(" :: e ++ unnamed_marker mk ++ [")"]). rewrite He. cbn [app]. rewrite <- !app_assoc. reflexivity. }
+        intros Hh Hnin Hl.
+        assert (Hnts : ~ In empty_str_lit ts) by (intros Hi; apply Hnin; right; exact Hi).
+        pose proof (suffix_len _ _ _ He) as L1. rewrite app_length in L1. cbn [List.length] in L1, Hl.
+        assert (Kc : read_slots_c (CF f) (map SF fs) ts = Some (unnamed_marker mk ++ ")" :: rest)).
+        { apply K; [destruct mk; reflexivity|exact Hnts|rewrite app_length; cbn [List.length]; lia]. }
+        destruct mk; cbn [unnamed_marker app] in Kc.
+        + assert (K1 : RunC14.read_shape (CF f) (item_shape (LUnnamed k) true fs) ("(" :: ts) = Some rest).
+          { cbn [item_shape RunC14.read_shape]. change (RunC14.expect "(" ("(" :: ts)) with (Some ts). cbn [obind].
+            rewrite read_slots_app by discriminate. rewrite Kc. cbn [obind].
+            rewrite (unnamed_marker_read (CF f) rest). reflexivity. }
+          split; [exact K1|].
+          apply (registry_shape_read (CF f) fs (LUnnamed k) true _ rest HL K1); [|discriminate].
+          intros _ _. cbn [item_shape RunC14.read_shape]. change (RunC14.expect "(" ("(" :: ts)) with (Some ts).
+          cbn [obind]. rewrite app_nil_r. rewrite (read_slots_of_c _ _ _ _ Kc). reflexivity.
+        + assert (K1 : RunC14.read_shape (CF f) (item_shape (LUnnamed k) false fs) ("(" :: ts) = Some rest).
+          { cbn [item_shape RunC14.read_shape]. change (RunC14.expect "(" ("(" :: ts)) with (Some ts). cbn [obind].
+            rewrite app_nil_r. rewrite (read_slots_of_c _ _ _ _ Kc). reflexivity. }
+          split; [exact K1|].
+          apply (registry_shape_read (CF f) fs (LUnnamed k) false _ rest HL K1); discriminate.
+    Qed.
+  End Children2.
+
+  Lemma hd_is_false_neq lit t0 l : Unparse.hd_is lit (t0 :: l) = false -> t0 <> lit.
+  Proof. cbn [Unparse.hd_is]. unfold Parse.teq. intros H E. subst t0. rewrite String.eqb_refl in H. discriminate. Qed.
+
+  Lemma read_elems_step C fuel e t0 l k :
+    t0 <> "]" ->
+    read_elems C (S fuel) e (t0 :: l) k =
+    obind (C e (t0 :: l))
+          (fun r1 => match r1 with
+                     | "," :: r2 => read_elems C fuel e r2 (k + 1)%N
+                     | "]" :: rest => Some ((k + 1)%N, rest)
+                     | _ => None
+                     end).
+  Proof. intros H. cbn [read_elems]. exact (match_rbracket (fun rest => Some (k, rest)) _ t0 l H). Qed.
+
+  Section Children3.
+    Variable f : nat.
+
+    (** [e , e , .. e ]] : the element loop of sequences and arrays *)
+    Lemma sep_read e : forall n ts fin,
+      conf_sep P e n ts fin -> forall rest, fin = "]" :: rest -> (0 < n)%N ->
+      (exists pre, ts = pre ++ fin) /\
+      (~ In empty_str_lit ts -> (List.length ts + 1 <= f + List.length fin)%nat ->
+       Unparse.hd_is "]" ts = false /\
+       forall fuelE k, (List.length ts <= fuelE + List.length rest)%nat ->
+                       read_elems (CF f) fuelE e ts k = Some ((k + n)%N, rest)).
+    Proof.
+      induction 1 as [fin|ts fin Hc|n ts mid fin Hn Hc Hs IH]; intros rest Efin Hpos; [lia| |].
+      - destruct (proj1 Hc) as (pre & Hpre). split; [exists pre; exact Hpre|].
+        intros Hnin Hl.
+        assert (Hh : Unparse.hd_is "(" fin = false) by (subst fin; reflexivity).
+        destruct (child_read f _ _ _ Hc Hh Hnin Hl) as [K Hhd]. split; [exact Hhd|].
+        intros fuelE k Hf. pose proof (suffix_len _ _ _ Hpre) as L1. subst fin. cbn [List.length] in L1.
+        destruct fuelE as [|fuelE]; [lia|].
+        destruct ts as [|t0 l]; [cbn [List.length] in L1; lia|].
+        rewrite (read_elems_step (CF f) fuelE e t0 l k (hd_is_false_neq _ _ _ Hhd)).
+        rewrite K. reflexivity.
+      - destruct (proj1 Hc) as (pre1 & Hpre1). destruct (IH rest Efin Hn) as [(pre2 & Hpre2) Kn].
+        split; [exists (pre1 ++ "," :: pre2); rewrite Hpre1, Hpre2, <- app_assoc; reflexivity|].
+        intros Hnin Hl.
+        pose proof (suffix_len _ _ _ Hpre1) as L1. pose proof (suffix_len _ _ _ Hpre2) as L2.
+        cbn [List.length] in L1.
+        destruct (child_read f e ts ("," :: mid) Hc eq_refl Hnin ltac:(cbn [List.length]; lia)) as [K Hhd].
+        split; [exact Hhd|].
+        assert (Hnmid : ~ In empty_str_lit mid).
+        { apply (notin_suffix _ _ _ _ Hpre1) in Hnin. intros Hi. apply Hnin. right. exact Hi. }
+        destruct (Kn Hnmid ltac:(lia)) as [_ Kr].
+        intros fuelE k Hf. subst fin. cbn [List.length] in L2.
+        destruct fuelE as [|fuelE]; [lia|].
+        destruct ts as [|t0 l]; [cbn [List.length] in L1; lia|].
+        rewrite (read_elems_step (CF f) fuelE e t0 l k (hd_is_false_neq _ _ _ Hhd)).
+        rewrite K. cbn [obind]. cbv iota. cbn [List.length] in L1, Hf.
+        rewrite (Kr fuelE (k + 1)%N ltac:(lia)). f_equal. f_equal. lia.
+    Qed.
+
+    Lemma tuple_read : forall l ts fin,
+      conf_tuple P l ts fin -> forall a1,
+      (exists pre, ts = pre ++ fin) /\
+      (~ In empty_str_lit ts -> (List.length ts <= f + List.length fin)%nat ->
+       RunC14.read_tuple (CF f) l a1 ts = Some fin).
+    Proof.
+      induction 1 as [fin|i l ts mid fin Hc Ht IH]; intros a1.
+      - split; [exists []; reflexivity|]. intros _ _. reflexivity.
+      - destruct (proj1 Hc) as (pre1 & Hpre1). destruct (IH a1) as [(pre2 & Hpre2) Kn].
+        split; [exists (pre1 ++ "," :: pre2); rewrite Hpre1, Hpre2, <- app_assoc; reflexivity|].
+        intros Hnin Hl.
+        pose proof (suffix_len _ _ _ Hpre1) as L1. pose proof (suffix_len _ _ _ Hpre2) as L2.
+        cbn [List.length] in L1.
+        destruct (child_read f i ts ("," :: mid) Hc eq_refl Hnin ltac:(cbn [List.length]; lia)) as [K _].
+        assert (Hnmid : ~ In empty_str_lit mid).
+        { apply (notin_suffix _ _ _ _ Hpre1) in Hnin. intros Hi. apply Hnin. right. exact Hi. }
+        cbn [RunC14.read_tuple]. rewrite K. cbn [obind].
+        destruct l as [|j l'].
+        + inversion Ht; subst. destruct a1; reflexivity.
+        + change (RunC14.expect "," ("," :: mid)) with (Some mid). cbn [obind].
+          apply (Kn Hnmid). lia.
+    Qed.
+  End Children3.
+
+  (** ** the cases *)
+  Lemma root_not_rbracket : root <> "]".
+  Proof. intros E. pose proof scope_root as H. rewrite E in H. discriminate H. Qed.
+
+  Lemma notin_app_r (p ts : toks) : ~ In empty_str_lit (p ++ ts) -> ~ In empty_str_lit ts.
+  Proof. intros H Hi. apply H. apply in_or_app. right. exact Hi. Qed.
+
+  Lemma cw_plain id t :
+    lookup r id = Some t -> (forall e, t_def t <> TDCompact e) -> is_cow_ty t = false -> cw id = 0%nat.
+  Proof. intros L D Hc. rewrite (cw_self id t L D), Hc. reflexivity. Qed.
+
+  Ltac enter L D :=
+    cbn [conf];
+    rewrite (strip_compact_self r _ _ L ltac:(intros e0; rewrite D; discriminate));
+    rewrite D; cbv beta iota.
+
+  Lemma case_prim id t p ts rest :
+    lookup r id = Some t -> t_def t = TDPrimitive p -> prim_lit p ts rest -> P id ts rest.
+  Proof.
+    intros L D Hp. destruct (prim_read p ts rest Hp) as [(e & Hne & He) Kp].
+    split; [exists e; exact He|]. intros Hh Hn. destruct (Kp Hn) as [Kr Khd].
+    assert (Hcw : cw id = 0%nat).
+    { apply (cw_plain id t L); [intros e0; rewrite D; discriminate|unfold is_cow_ty; rewrite D; reflexivity]. }
+    pose proof (suffix_len _ _ _ He) as L1.
+    assert (Hle : (0 < List.length e)%nat) by (destruct e; [congruence|cbn [List.length]; lia]).
+    split; [exact Khd|]. split; [lia|]. intros fuel Hf. destruct fuel as [|f]; [lia|].
+    enter L D. exact Kr.
+  Qed.
+
+  Lemma case_compact id t e ts rest :
+    lookup r id = Some t -> t_def t = TDCompact e -> P e ts rest -> P id ts rest.
+  Proof.
+    intros L D [Hs Hr]. split; [exact Hs|]. intros Hh Hn. destruct (Hr Hh Hn) as (H1 & H2 & H3).
+    rewrite (cw_hop id t e L D). split; [exact H1|]. split; [exact H2|].
+    intros fuel Hf. apply (conf_hop id t e fuel ts rest L D). apply H3. exact Hf.
+  Qed.
+
+  Lemma case_bits id t st o rest :
+    lookup r id = Some t -> t_def t = TDBitSeq st o -> P id (bits_example ++ rest) rest.
+  Proof.
+    intros L D. split; [exists bits_example; reflexivity|]. intros _ _.
+    assert (Hcw : cw id = 0%nat).
+    { apply (cw_plain id t L); [intros e0; rewrite D; discriminate|unfold is_cow_ty; rewrite D; reflexivity]. }
+    split; [reflexivity|]. split; [rewrite app_length; cbn [bits_example List.length]; lia|].
+    intros fuel Hf. destruct fuel as [|f]; [rewrite app_length in Hf; cbn [bits_example List.length] in Hf; lia|].
+    enter L D. reflexivity.
+  Qed.
+
+  Lemma sep_zero e ts fin : conf_sep P e 0 ts fin -> ts = fin.
+  Proof.
+    intros H. inversion H as [fin0|ts0 fin0 Hc|n ts0 mid fin0 Hn Hc Hs]; subst; try reflexivity; exfalso; lia.
+  Qed.
+
+  Lemma case_seq id t e n ts rest :
+    lookup r id = Some t -> t_def t = TDSequence e ->
+    conf_sep P e n ts ("]" :: rest) -> P id ("vec" :: "!" :: "[" :: ts) rest.
+  Proof.
+    intros L D Hs.
+    assert (Hcw : cw id = 0%nat).
+    { apply (cw_plain id t L); [intros e0; rewrite D; discriminate|unfold is_cow_ty; rewrite D; reflexivity]. }
+    destruct (N.eq_dec n 0) as [->|Hn0].
+    - apply sep_zero in Hs. subst ts.
+      split; [exists ["vec"; "!"; "["; "]"]; reflexivity|]. intros _ _.
+      split; [reflexivity|]. split; [cbn [List.length]; lia|].
+      intros fuel Hf. destruct fuel as [|f]; [cbn [List.length] in Hf; lia|].
+      enter L D. reflexivity.
+    - assert (Hpos : (0 < n)%N) by lia.
+      split.
+      + destruct (proj1 (sep_read 0 e n ts _ Hs rest eq_refl Hpos)) as (pre & Hpre).
+        exists ("vec" :: "!" :: "[" :: pre ++ ["]"]). rewrite Hpre. cbn [app]. rewrite <- app_assoc. reflexivity.
+      + intros _ Hnin. split; [reflexivity|].
+        destruct (proj1 (sep_read 0 e n ts _ Hs rest eq_refl Hpos)) as (pre & Hpre).
+        pose proof (suffix_len _ _ _ Hpre) as L1. cbn [List.length] in L1.
+        split; [cbn [List.length]; lia|].
+        intros fuel Hf. destruct fuel as [|f]; [cbn [List.length] in Hf; lia|].
+        cbn [List.length] in Hf.
+        destruct (sep_read f e n ts _ Hs rest eq_refl Hpos) as [_ K].
+        assert (Hnts : ~ In empty_str_lit ts) by (intros Hi; apply Hnin; right; right; right; exact Hi).
+        destruct (K Hnts ltac:(cbn [List.length]; lia)) as [_ Kr].
+        enter L D.
+        change (RunC14.expects ["vec"; "!"; "["] ("vec" :: "!" :: "[" :: ts)) with (Some ts). cbn [obind].
+        rewrite (Kr (S (List.length ts)) 0%N ltac:(lia)). reflexivity.
+  Qed.
+
+  Lemma usize_ok len0 :
+    (match strip_suffix "usize" (lit_u "usize" len0) with
+     | Some d => option_eqb N.eqb (decimal d) (Some len0)
+     | None => option_eqb N.eqb (decimal (lit_u "usize" len0)) (Some len0)
+     end) = true.
+  Proof.
+    unfold lit_u. rewrite strip_suffix_app, decimal_N_to_string. cbn [option_eqb]. apply N.eqb_refl.
+  Qed.
+
+  Lemma case_array_repeat id t len0 e ts rest :
+    lookup r id = Some t -> t_def t = TDArray len0 e ->
+    P e ts (";" :: lit_u "usize" len0 :: "]" :: rest) -> P id ("[" :: ts) rest.
+  Proof.
+    intros L D Hc.
+    assert (Hcw : cw id = 0%nat).
+    { apply (cw_plain id t L); [intros e0; rewrite D; discriminate|unfold is_cow_ty; rewrite D; reflexivity]. }
+    destruct (proj1 Hc) as (pre & Hpre). pose proof (suffix_len _ _ _ Hpre) as L1. cbn [List.length] in L1.
+    split.
+    - exists ("[" :: pre ++ [";"; lit_u "usize" len0; "]"]). rewrite Hpre. cbn [app]. rewrite <- app_assoc. reflexivity.
+    - intros _ Hnin. split; [reflexivity|]. split; [cbn [List.length]; lia|].
+      intros fuel Hf. destruct fuel as [|f]; [cbn [List.length] in Hf; lia|]. cbn [List.length] in Hf.
+      assert (Hnts : ~ In empty_str_lit ts) by (intros Hi; apply Hnin; right; exact Hi).
+      destruct (child_read f e ts _ Hc eq_refl Hnts ltac:(cbn [List.length]; lia)) as [K Hhd].
+      enter L D. change (RunC14.expect "[" ("[" :: ts)) with (Some ts). cbn [obind].
+      destruct ts as [|t0 l]; [cbn [List.length] in L1; lia|].
+      refine (eq_trans (match_rbracket (fun rest0 => if (len0 =? 0)%N then Some rest0 else None) _ t0 l
+                          (hd_is_false_neq _ _ _ Hhd)) _).
+      rewrite K. cbn [obind]. cbv beta iota zeta. rewrite usize_ok. reflexivity.
+  Qed.
+
+  Lemma case_array_list id t len0 e ts rest :
+    lookup r id = Some t -> t_def t = TDArray len0 e ->
+    conf_sep P e len0 ts ("]" :: rest) -> P id ("[" :: ts) rest.
+  Proof.
+    intros L D Hs.
+    assert (Hcw : cw id = 0%nat).
+    { apply (cw_plain id t L); [intros e0; rewrite D; discriminate|unfold is_cow_ty; rewrite D; reflexivity]. }
+    inversion Hs as [fin0|ts0 fin0 Hc|n ts0 mid fin0 Hn Hc Hs']; subst.
+    - split; [exists ["["; "]"]; reflexivity|]. intros _ _. split; [reflexivity|]. split; [cbn [List.length]; lia|].
+      intros fuel Hf. destruct fuel as [|f]; [cbn [List.length] in Hf; lia|].
+      enter L D. reflexivity.
+    - destruct (proj1 Hc) as (pre & Hpre). pose proof (suffix_len _ _ _ Hpre) as L1. cbn [List.length] in L1.
+      split; [exists ("[" :: pre ++ ["]"]); rewrite Hpre; cbn [app]; rewrite <- app_assoc; reflexivity|].
+      intros _ Hnin. split; [reflexivity|]. split; [cbn [List.length]; lia|].
+      intros fuel Hf. destruct fuel as [|f]; [cbn [List.length] in Hf; lia|]. cbn [List.length] in Hf.
+      assert (Hnts : ~ In empty_str_lit ts) by (intros Hi; apply Hnin; right; exact Hi).
+      destruct (child_read f e ts _ Hc eq_refl Hnts ltac:(cbn [List.length]; lia)) as [K Hhd].
+      enter L D. change (RunC14.expect "[" ("[" :: ts)) with (Some ts). cbn [obind].
+      destruct ts as [|t0 l]; [cbn [List.length] in L1; lia|].
+      refine (eq_trans (match_rbracket (fun rest0 => if (1 =? 0)%N then Some rest0 else None) _ t0 l
+                          (hd_is_false_neq _ _ _ Hhd)) _).
+      rewrite K. reflexivity.
+    - destruct (proj1 Hc) as (pre & Hpre). pose proof (suffix_len _ _ _ Hpre) as L1. cbn [List.length] in L1.
+      destruct (proj1 (sep_read 0 e n mid _ Hs' rest eq_refl Hn)) as (pre2 & Hpre2).
+      pose proof (suffix_len _ _ _ Hpre2) as L2. cbn [List.length] in L2.
+      split.
+      { exists ("[" :: pre ++ "," :: pre2 ++ ["]"]). rewrite Hpre, Hpre2. cbn [app].
+        rewrite <- !app_assoc. cbn [app]. rewrite <- app_assoc. reflexivity. }
+      intros _ Hnin. split; [reflexivity|]. split; [cbn [List.length]; lia|].
+      intros fuel Hf. destruct fuel as [|f]; [cbn [List.length] in Hf; lia|]. cbn [List.length] in Hf.
+      assert (Hnts : ~ In empty_str_lit ts) by (intros Hi; apply Hnin; right; exact Hi).
+      assert (Hnmid : ~ In empty_str_lit mid).
+      { apply (notin_suffix _ _ _ _ Hpre) in Hnts. intros Hi. apply Hnts. right. exact Hi. }
+      destruct (child_read f e ts _ Hc eq_refl Hnts ltac:(cbn [List.length]; lia)) as [K Hhd].
+      destruct (sep_read f e n mid _ Hs' rest eq_refl Hn) as [_ Ks].
+      destruct (Ks Hnmid ltac:(cbn [List.length]; lia)) as [_ Kr].
+      enter L D. change (RunC14.expect "[" ("[" :: ts)) with (Some ts). cbn [obind].
+      destruct ts as [|t0 l]; [cbn [List.length] in L1; lia|].
+      refine (eq_trans (match_rbracket (fun rest0 => if (N.succ n =? 0)%N then Some rest0 else None) _ t0 l
+                          (hd_is_false_neq _ _ _ Hhd)) _).
+      rewrite K. cbn [obind]. cbv beta iota.
+      rewrite (Kr (S (List.length mid)) 1%N ltac:(lia)). cbn [obind fst snd].
+      replace (1 + n =? N.succ n)%N with true by (symmetry; apply N.eqb_eq; lia). reflexivity.
+  Qed.
+
+  Lemma case_tuple id t l ts rest :
+    lookup r id = Some t -> t_def t = TDTuple l ->
+    conf_tuple P l ts (")" :: rest) -> P id ("(" :: ts) rest.
+  Proof.
+    intros L D Ht.
+    assert (Hcw : cw id = 0%nat).
+    { apply (cw_plain id t L); [intros e0; rewrite D; discriminate|unfold is_cow_ty; rewrite D; reflexivity]. }
+    destruct (proj1 (tuple_read 0 l ts _ Ht true)) as (pre & Hpre).
+    pose proof (suffix_len _ _ _ Hpre) as L1. cbn [List.length] in L1.
+    split; [exists ("(" :: pre ++ [")"]); rewrite Hpre; cbn [app]; rewrite <- app_assoc; reflexivity|].
+    intros _ Hnin. split; [reflexivity|]. split; [cbn [List.length]; lia|].
+    intros fuel Hf. destruct fuel as [|f]; [cbn [List.length] in Hf; lia|]. cbn [List.length] in Hf.
+    assert (Hnts : ~ In empty_str_lit ts) by (intros Hi; apply Hnin; right; exact Hi).
+    enter L D. change (RunC14.expect "(" ("(" :: ts)) with (Some ts). cbn [obind].
+    destruct (tuple_read f l ts _ Ht (match l with [_] => true | _ => false end)) as [_ K].
+    rewrite (K Hnts ltac:(cbn [List.length]; lia)). reflexivity.
+  Qed.
+
+  Lemma case_cow id t fs inner ts rest :
+    lookup r id = Some t -> t_def t = TDComposite fs -> cow_inner t = Some inner ->
+    P inner ts rest -> P id ts rest.
+  Proof.
+    intros L D Hcow [Hs Hr]. split; [exact Hs|]. intros Hh Hn. destruct (Hr Hh Hn) as (H1 & H2 & H3).
+    assert (Hcw : cw id = 1%nat).
+    { rewrite (cw_self id t L) by (intros e0; rewrite D; discriminate).
+      unfold is_cow_ty. rewrite D, Hcow. reflexivity. }
+    assert (Hci : cw inner = 0%nat).
+    { pose proof (scope_entry id t L) as Hse. unfold entry_scopeb in Hse. rewrite D, Hcow in Hse.
+      unfold cw, len. destruct (strip_compact r (S (List.length r)) inner) as [[i' t']|]; [|reflexivity].
+      apply negb_true_iff in Hse. rewrite Hse. reflexivity. }
+    destruct Hs as (e & He). pose proof (suffix_len _ _ _ He) as L1.
+    rewrite Hcw. split; [exact H1|]. split; [lia|].
+    intros fuel Hf. destruct fuel as [|f]; [lia|].
+    enter L D. unfold cow_inner in Hcow. rewrite Hcow. apply H3. lia.
+  Qed.
+
+  Lemma foreign_item p :
+    foreign_path_okb root p = true ->
+    exists x q, p = x :: q /\ x <> "]" /\ x <> "None" /\ item_of_path root pm p = Some None.
+  Proof.
+    unfold foreign_path_okb. destruct p as [|x q]; [discriminate|]. intros H.
+    apply andb_prop in H as [H H3]. apply andb_prop in H as [H1 H2].
+    apply negb_true_iff in H1, H2. apply String.eqb_neq in H1, H2.
+    exists x, q. split; [reflexivity|]. split; [exact H1|]. split; [exact H2|].
+    unfold item_of_path. destruct (rel_segments (x :: q)) as [[|y l]|]; try reflexivity.
+    apply negb_true_iff in H3. rewrite H3. reflexivity.
+  Qed.
+
+  Lemma foreign_scope id t p :
+    lookup r id = Some t -> item_eligible s t = false -> path_omit_generics r s id = Ok p ->
+    foreign_okb r s id t = true -> foreign_path_okb root p = true.
+  Proof. intros L He Hp H. unfold foreign_okb in H. rewrite He, Hp in H. exact H. Qed.
+
+  Lemma case_struct_item id t fs p id0 ir Ly mk ts rest :
+    lookup r id = Some t -> t_def t = TDComposite fs -> cow_inner t = None ->
+    item_eligible s t = true -> path_omit_generics r s id = Ok p ->
+    items_get m (t_path t) = Some (id0, ir) -> sig_of_ir ir = ISStruct Ly mk ->
+    conf_shape P Ly mk fs ts rest -> P id (p ++ ts) rest.
+  Proof.
+    intros L D Hcow He Hp Hg Hsig Hsh.
+    assert (Hcw : cw id = 0%nat).
+    { apply (cw_plain id t L); [intros e0; rewrite D; discriminate|unfold is_cow_ty; rewrite D, Hcow; reflexivity]. }
+    destruct (struct_item_facts id t fs id0 ir Ly mk L D He Hg Hsig) as (HL & Henum & Hshape).
+    pose proof (cow_none_not_cow r s id t p (lookup_resolve r id t L) Hcow Hp) as Hnc.
+    destruct (item_of_literal id t p id0 ir L He Hnc Hp Hg) as (Hitem & (x & q & Ep & Ex) & _).
+    subst p x.
+    destruct (proj1 (shape_read 0 Ly mk fs ts rest Hsh HL)) as (e & He').
+    pose proof (suffix_len _ _ _ He') as L1.
+    split; [exists ((root :: q) ++ e); rewrite He', app_assoc; reflexivity|].
+    intros Hh Hnin. split; [cbn [app Unparse.hd_is]; apply teq_neq; exact root_not_rbracket|].
+    split; [rewrite app_length; cbn [List.length]; lia|].
+    intros fuel Hf. destruct fuel as [|f]; [rewrite app_length in Hf; cbn [List.length] in Hf; lia|].
+    rewrite app_length in Hf. cbn [List.length] in Hf.
+    destruct (shape_read f Ly mk fs ts rest Hsh HL) as [_ K].
+    destruct (K Hh (notin_app_r _ _ Hnin) ltac:(lia)) as [Kr _].
+    enter L D. unfold cow_inner in Hcow. rewrite Hcow.
+    unfold paths. rewrite (observed_model_path r s id t _ L Hp). cbn [obind].
+    rewrite expects_app. cbn [obind]. rewrite Hitem, Henum, Hshape. cbn [obind]. exact Kr.
+  Qed.
+
+  Lemma case_struct_foreign id t fs p Ly mk ts rest :
+    lookup r id = Some t -> t_def t = TDComposite fs -> cow_inner t = None ->
+    item_eligible s t = false -> path_omit_generics r s id = Ok p ->
+    layout_of_fields fs = Some Ly ->
+    conf_shape P Ly mk fs ts rest -> P id (p ++ ts) rest.
+  Proof.
+    intros L D Hcow He Hp HL Hsh.
+    assert (Hcw : cw id = 0%nat).
+    { apply (cw_plain id t L); [intros e0; rewrite D; discriminate|unfold is_cow_ty; rewrite D, Hcow; reflexivity]. }
+    pose proof (scope_entry id t L) as Hse. unfold entry_scopeb in Hse. rewrite D, Hcow in Hse.
+    destruct (foreign_item p (foreign_scope id t p L He Hp Hse)) as (x & q & Ep & Hx1 & Hx2 & Hitem).
+    subst p.
+    destruct (proj1 (shape_read 0 Ly mk fs ts rest Hsh HL)) as (e & He').
+    pose proof (suffix_len _ _ _ He') as L1.
+    split; [exists ((x :: q) ++ e); rewrite He', app_assoc; reflexivity|].
+    intros Hh Hnin. split; [cbn [app Unparse.hd_is]; apply teq_neq; exact Hx1|].
+    split; [rewrite app_length; cbn [List.length]; lia|].
+    intros fuel Hf. destruct fuel as [|f]; [rewrite app_length in Hf; cbn [List.length] in Hf; lia|].
+    rewrite app_length in Hf. cbn [List.length] in Hf.
+    destruct (shape_read f Ly mk fs ts rest Hsh HL) as [_ K].
+    destruct (K Hh (notin_app_r _ _ Hnin) ltac:(lia)) as [_ Kr].
+    enter L D. unfold cow_inner in Hcow. rewrite Hcow.
+    unfold paths. rewrite (observed_model_path r s id t _ L Hp). cbn [obind].
+    rewrite expects_app. cbn [obind]. rewrite Hitem. exact Kr.
+  Qed.
+
+  Lemma variant_scope id t vs :
+    lookup r id = Some t -> t_def t = TDVariant vs ->
+    path_ident (t_path t) <> Some "Cow" /\ NoDup (map v_name vs) /\ foreign_okb r s id t = true /\
+    (path_omit_generics r s id = Ok ["Option"] -> t_path t = ["Option"]).
+  Proof.
+    intros L D. pose proof (scope_entry id t L) as Hse. unfold entry_scopeb in Hse. rewrite D in Hse.
+    apply andb_prop in Hse as [Hse H4]. apply andb_prop in Hse as [Hse H3]. apply andb_prop in Hse as [H1 H2].
+    split; [|split; [apply nodup_strb_sound; exact H2|split; [exact H3|]]].
+    - intros E. rewrite E in H1. discriminate H1.
+    - intros Hp. rewrite Hp in H4. cbn [list_eqb] in H4.
+      change (String.eqb "Option" "Option") with true in H4. cbn [andb] in H4.
+      apply (list_eqb_sound String.eqb (fun x y => proj1 (String.eqb_eq x y))). exact H4.
+  Qed.
+
+  Definition none_test (vs : list variant) : bool :=
+    existsb (fun v => String.eqb (v_name v) "None" && match v_fields v with [] => true | _ => false end) vs.
+
+  Lemma case_variant_item id t vs v p id0 ir sigs Ly ts rest :
+    lookup r id = Some t -> t_def t = TDVariant vs -> In v vs ->
+    item_eligible s t = true -> path_omit_generics r s id = Ok p ->
+    items_get m (t_path t) = Some (id0, ir) -> sig_of_ir ir = ISEnum sigs ->
+    In (v_name v, Ly) sigs ->
+    conf_shape P Ly false (v_fields v) ts rest ->
+    P id (p ++ ":" :: ":" :: v_name v :: ts) rest.
+  Proof.
+    intros L D Hv He Hp Hg Hsig Hin Hsh.
+    assert (Hcw : cw id = 0%nat).
+    { apply (cw_plain id t L); [intros e0; rewrite D; discriminate|unfold is_cow_ty; rewrite D; reflexivity]. }
+    destruct (variant_scope id t vs L D) as (Hnc & Hnd & _ & _).
+    destruct (variant_item_facts id t vs v id0 ir sigs Ly L D Hv He Hg Hsig Hin) as (HL & Henum & pv & Hfind & Hshape).
+    destruct (item_of_literal id t p id0 ir L He Hnc Hp Hg) as (Hitem & (x & q & Ep & Ex) & (a & b & l & Epath)).
+    subst p x.
+    destruct (proj1 (shape_read 0 Ly false (v_fields v) ts rest Hsh HL)) as (e & He').
+    pose proof (suffix_len _ _ _ He') as L1.
+    split.
+    { exists ((root :: q) ++ ":" :: ":" :: v_name v :: e). rewrite He'. rewrite <- app_assoc. reflexivity. }
+    intros Hh Hnin. split; [cbn [app Unparse.hd_is]; apply teq_neq; exact root_not_rbracket|].
+    split; [rewrite app_length; cbn [List.length]; lia|].
+    intros fuel Hf. destruct fuel as [|f]; [rewrite app_length in Hf; cbn [List.length] in Hf; lia|].
+    rewrite app_length in Hf. cbn [List.length] in Hf.
+    destruct (shape_read f Ly false (v_fields v) ts rest Hsh HL) as [_ K].
+    assert (Hnts : ~ In empty_str_lit ts).
+    { apply notin_app_r in Hnin. intros Hi. apply Hnin. right; right; right. exact Hi. }
+    destruct (K Hh Hnts ltac:(lia)) as [Kr _].
+    enter L D.
+    assert (Hno : t_path t <> ["Option"]) by (rewrite Epath; discriminate).
+    set (B := obind (observed_path paths id) _).
+    refine (eq_trans (match_none (fun rest0 : toks =>
+                          if existsb (fun v0 : variant =>
+                                        String.eqb (v_name v0) "None" &&
+                                        match v_fields v0 with [] => true | _ => false end) vs
+                          then Some rest0 else None) B
+                        ((root :: q) ++ ":" :: ":" :: v_name v :: ts) (t_path t)
+                        (or_intror Hno)) _). unfold B. clear B.
+    unfold paths. rewrite (observed_model_path r s id t _ L Hp). cbn [obind].
+    rewrite expects_app. cbn [obind app]. cbv beta iota.
+    rewrite (find_key_nodup v_name vs v Hnd Hv).
+    rewrite Hitem, Henum, Hfind, Hshape. cbn [obind]. exact Kr.
+  Qed.
+
+  Lemma case_variant_foreign id t vs v p Ly ts rest :
+    lookup r id = Some t -> t_def t = TDVariant vs -> In v vs ->
+    item_eligible s t = false -> path_omit_generics r s id = Ok p ->
+    layout_of_fields (v_fields v) = Some Ly ->
+    conf_shape P Ly false (v_fields v) ts rest ->
+    P id (p ++ ":" :: ":" :: v_name v :: ts) rest.
+  Proof.
+    intros L D Hv He Hp HL Hsh.
+    assert (Hcw : cw id = 0%nat).
+    { apply (cw_plain id t L); [intros e0; rewrite D; discriminate|unfold is_cow_ty; rewrite D; reflexivity]. }
+    destruct (variant_scope id t vs L D) as (_ & Hnd & Hfo & _).
+    destruct (foreign_item p (foreign_scope id t p L He Hp Hfo)) as (x & q & Ep & Hx1 & Hx2 & Hitem).
+    subst p.
+    destruct (proj1 (shape_read 0 Ly false (v_fields v) ts rest Hsh HL)) as (e & He').
+    pose proof (suffix_len _ _ _ He') as L1.
+    split.
+    { exists ((x :: q) ++ ":" :: ":" :: v_name v :: e). rewrite He'. rewrite <- app_assoc. reflexivity. }
+    intros Hh Hnin. split; [cbn [app Unparse.hd_is]; apply teq_neq; exact Hx1|].
+    split; [rewrite app_length; cbn [List.length]; lia|].
+    intros fuel Hf. destruct fuel as [|f]; [rewrite app_length in Hf; cbn [List.length] in Hf; lia|].
+    rewrite app_length in Hf. cbn [List.length] in Hf.
+    destruct (shape_read f Ly false (v_fields v) ts rest Hsh HL) as [_ K].
+    assert (Hnts : ~ In empty_str_lit ts).
+    { apply notin_app_r in Hnin. intros Hi. apply Hnin. right; right; right. exact Hi. }
+    destruct (K Hh Hnts ltac:(lia)) as [_ Kr].
+    enter L D.
+    assert (Hnn : Unparse.hd_is "None" ((x :: q) ++ ":" :: ":" :: v_name v :: ts) = false)
+      by (cbn [app Unparse.hd_is]; apply teq_neq; exact Hx2).
+    set (B := obind (observed_path paths id) _).
+    refine (eq_trans (match_none (fun rest0 : toks =>
+                          if existsb (fun v0 : variant =>
+                                        String.eqb (v_name v0) "None" &&
+                                        match v_fields v0 with [] => true | _ => false end) vs
+                          then Some rest0 else None) B
+                        ((x :: q) ++ ":" :: ":" :: v_name v :: ts) (t_path t)
+                        (or_introl Hnn)) _). unfold B. clear B.
+    unfold paths. rewrite (observed_model_path r s id t _ L Hp). cbn [obind].
+    rewrite expects_app. cbn [obind app]. cbv beta iota.
+    rewrite (find_key_nodup v_name vs v Hnd Hv).
+    rewrite Hitem. exact Kr.
+  Qed.
+
+  Lemma case_none id t vs v rest :
+    lookup r id = Some t -> t_def t = TDVariant vs -> In v vs ->
+    v_name v = "None" -> v_fields v = [] ->
+    path_omit_generics r s id = Ok ["Option"] -> P id ("None" :: rest) rest.
+  Proof.
+    intros L D Hv Hn Hf0 Hp.
+    assert (Hcw : cw id = 0%nat).
+    { apply (cw_plain id t L); [intros e0; rewrite D; discriminate|unfold is_cow_ty; rewrite D; reflexivity]. }
+    destruct (variant_scope id t vs L D) as (_ & _ & _ & Hopt). specialize (Hopt Hp).
+    split; [exists ["None"]; reflexivity|]. intros _ _. split; [reflexivity|].
+    split; [cbn [List.length]; lia|].
+    intros fuel Hf. destruct fuel as [|f]; [cbn [List.length] in Hf; lia|].
+    enter L D. rewrite Hopt. cbv beta iota.
+    assert (Hex : none_test vs = true).
+    { apply existsb_exists. exists v. split; [exact Hv|]. rewrite Hn, Hf0. reflexivity. }
+    unfold none_test in Hex. rewrite Hex. reflexivity.
+  Qed.
+
+  (** ** the relation implies acceptance by the reader's [conf], with explicit fuel *)
+  Theorem conforms_P id ts rest : conforms r s m id ts rest -> P id ts rest.
+  Proof.
+    apply (conforms_sind r s m P).
+    - exact case_prim.
+    - exact case_compact.
+    - exact case_bits.
+    - exact case_seq.
+    - exact case_array_repeat.
+    - exact case_array_list.
+    - exact case_tuple.
+    - exact case_cow.
+    - exact case_struct_item.
+    - exact case_struct_foreign.
+    - exact case_variant_item.
+    - exact case_variant_foreign.
+    - exact case_none.
+  Qed.
+
+  Theorem conformsb_of_conforms id ts :
+    conforms r s m id ts [] -> ~ In empty_str_lit ts ->
+    conformsb r (s_root s) (Some (pmod_of_items s m)) (model_paths r s) id ts = true.
+  Proof.
+    intros H Hn. destruct (conforms_P id ts [] H) as [_ K].
+    destruct (K eq_refl Hn) as (_ & _ & Kf). unfold conformsb.
+    fold root. fold pm. fold paths.
+    rewrite (Kf (S (List.length ts))); [reflexivity|]. pose proof (cw_le1 id). cbn [List.length]. lia.
+  Qed.
+End Tie.
